@@ -93,6 +93,8 @@ func TestCheck(t *testing.T) {
 	}
 	runCold(res, tierConfs(), "", 0)
 	runPathClient(res, tierConfs())
+	runSizeClasses(res, tierConfs())
+	runFailedUpload(res)
 	// Thorough tier: fair shares of the time budget (x1.25 slack): a space may run until now + remaining x (its number of histories / histories still to do), so that under
 	// time pressure every configuration still gets its shallow depths (opseq is breadth-first by depth) instead of
 	// the last configurations getting nothing; unused time rolls over to the later spaces.
